@@ -3,15 +3,18 @@
 package connectconformance
 
 import (
-	"crypto/tls"
-	"crypto/x509"
 	"bufio"
 	"bytes"
+	"context"
+	"crypto/tls"
+	"crypto/x509"
 	"encoding/json"
 	"fmt"
 	"io"
 	"net"
 	"net/http"
+	"net/http/httputil"
+	"net/url"
 	"os"
 	"os/signal"
 	"sort"
@@ -21,6 +24,7 @@ import (
 	"time"
 
 	"connectrpc.com/conformance/internal"
+	"connectrpc.com/conformance/internal/app/referenceserver"
 	conformancev1 "connectrpc.com/conformance/internal/gen/proto/go/connectrpc/conformance/v1"
 	"google.golang.org/protobuf/proto"
 )
@@ -36,7 +40,56 @@ func init() {
 		os.Exit(vfPeerClientMain())
 	case "script-server":
 		os.Exit(vfPeerServerMain())
+	case "trailer-server":
+		os.Exit(vfPeerTrailerServerMain())
 	}
+}
+
+// vfPeerTrailerServerMain: a server under test that answers every RPC correctly - it is the repository's own
+// conformance server (not in reference mode) - behind a reverse proxy that appends an HTTP trailer to each response:
+// results match the expectations, but a client that looks at the wire has something to report.
+func vfPeerTrailerServerMain() int {
+	time.AfterFunc(3*time.Minute, func() { os.Exit(4) }) // never linger
+	var req conformancev1.ServerCompatRequest
+	if err := internal.ReadDelimitedMessage(os.Stdin, &req, "runner", 10*time.Second, 1<<20); err != nil {
+		return 3
+	}
+	inR, inW := io.Pipe()
+	outR, outW := io.Pipe()
+	go func() {
+		_ = referenceserver.Run(context.Background(), []string{"server", "-port", "0", "-bind", "127.0.0.1"}, inR, outW, os.Stderr)
+	}()
+	go func() { _ = internal.WriteDelimitedMessage(inW, &req) }()
+	var backend conformancev1.ServerCompatResponse
+	if err := internal.ReadDelimitedMessage(outR, &backend, "backend", 10*time.Second, 1<<20); err != nil {
+		return 3
+	}
+	target, err := url.Parse(fmt.Sprintf("http://%s:%d", backend.Host, backend.Port))
+	if err != nil {
+		return 3
+	}
+	proxy := httputil.NewSingleHostReverseProxy(target)
+	proxy.ModifyResponse = func(resp *http.Response) error {
+		resp.Header.Del("Content-Length")
+		resp.ContentLength = -1
+		if resp.Trailer == nil {
+			resp.Trailer = http.Header{}
+		}
+		resp.Trailer.Set("X-Verif-Extra-Trailer", "1")
+		return nil
+	}
+	lis, err := net.Listen("tcp", "127.0.0.1:0")
+	if err != nil {
+		return 4
+	}
+	go func() { _ = http.Serve(lis, proxy) }()
+	if err := internal.WriteDelimitedMessage(os.Stdout, &conformancev1.ServerCompatResponse{Host: "127.0.0.1", Port: uint32(lis.Addr().(*net.TCPAddr).Port)}); err != nil {
+		return 3
+	}
+	sig := make(chan os.Signal, 1)
+	signal.Notify(sig, syscall.SIGTERM, syscall.SIGINT)
+	<-sig
+	return 0
 }
 
 // vfPeerCommand returns the command line that runs this test binary as a peer.
